@@ -10,6 +10,7 @@ CONSTANTS
   ImsLe = FALSE
   ImsLocalTime = FALSE
   ImsNotAfterNow = FALSE
+  BigPositions = TRUE
   Tokens <- NoTokens
   MaxTokens = 0
   StartPaths <- SmallFiles
